@@ -13,6 +13,7 @@ open Pool.Util
 structure Drv where
   accts : List AState := []
   batch : List Nat := []      -- accounts of the staged batch, in diff order
+  subFail : Bool := false     -- fault injection: the auctioneer subscription fails
 deriving Repr
 
 abbrev DrvSt := Drv
@@ -78,8 +79,16 @@ def spendKind? (k id : String) : Option SpendKind :=
 
 /-- apply one per-account op -/
 def Drv.apply (d : Drv) (k : Nat) (op : Op) : Drv × Res :=
-  let r := step (d.get k) op
+  let r := step { d.get k with subFail := d.subFail } op
   (d.set r.1, r.2)
+
+/-- a transaction account `k` has seen (written into its record or staged for it), by id.  Transactions are
+per-account views (only that account's input / output), so the view of `k` itself is used. -/
+def Drv.findTx (d : Drv) (k : Nat) (id : Nat) : Option Tx :=
+  let s := d.get k
+  let txs := (s.trace.filterMap fun e => match e with | .write a => a.latestTx | _ => none) ++
+    (match s.staged.bind (·.latestTx) with | some t => [t] | none => [])
+  txs.find? (·.id == id)
 
 /-- `MarkBatchComplete`: every account of the staged batch -/
 def Drv.completeAll (d : Drv) : Drv :=
@@ -130,6 +139,22 @@ def drvStep (d : Drv) (args : List String) : Drv × String :=
   let fin (r : Drv × Res) : Drv × String := (r.1, render d r.1 (fmtRes r.2))
   match args with
   | ["reset"] => ({}, "ok")
+  | ["subfail", b] =>
+    match bool? b with
+    | some b => ({ d with subFail := b }, "ok")
+    | none => bad
+  | ["spendc", k, pos, id, h] =>
+    -- the chain reports the transaction that actually spent the outpoint of live registration #pos
+    match nat? k, nat? pos, nat? id, nat? h with
+    | some k, some pos, some id, some h =>
+      match d.findTx k id, (d.get k).w.spendRegs[pos]? with
+      | some t, some _ =>
+        let d0 := (d.apply k (.consumeSpend pos)).1
+        let d1 := d0.spendFanout k (some t)
+        let r := d1.apply k (.spendH t h)
+        (r.1, render d r.1 (fmtRes r.2))
+      | _, _ => (d, render d d "err")
+    | _, _, _, _ => bad
   | ["init", k, v, e, ver, h, tx, idx] =>
     match nat? k, nat? v, nat? e, nat? ver, nat? h, fund? tx idx with
     | some k, some v, some e, some ver, some h, some f => fin (d.apply k (.init v e ver h f))
